@@ -1,6 +1,6 @@
 (* C12 correspondence: how observed implementation steps are compared with the model.
    Used by the generated run/C12/cases_*.v files.  Not part of any theorem. *)
-From Hy Require Import lib.Harness model.C12_Queue.
+From Hy Require Import lib.Harness model.C12_Queue model.C12_Sender.
 From Coq Require Import ZArith Bool List.
 Import ListNotations.
 Local Open Scope Z_scope.
@@ -105,11 +105,94 @@ Fixpoint wfx_run (f : wfilt xev) (steps : list (list Z * list Z)) : bool :=
   | _ => false
   end.
 
+(* ---------------------------------------------------------------- simulator dumps (layer 2) *)
+Definition g (l : list Z) (i : nat) : Z := nth i l 0.
+
+Definition st_at (l : list Z) (o : nat) : wstate :=
+  mkW (g l o) (g l (o + 1)) (g l (o + 2)) (g l (o + 3)) (g l (o + 4)) (g l (o + 5)) (g l (o + 6)) (g l (o + 7))
+      (g l (o + 8)) (g l (o + 9)) (g l (o + 10) =? 1) (g l (o + 11)) (g l (o + 12)) (g l (o + 13)) (g l (o + 14))
+      (g l (o + 15)).
+
+Definition st_list (st : wstate) : list Z :=
+  [mds st; minCW st; maxCW st; initCW st; cwndMinPacing st; maxCWAdj st; cwnd st; recWin st; mode st; recState st;
+   b2z (atFullBw st); endRecoveryAt st; lastSent st; curRoundEnd st; roundCount st; inflight st].
+
+Definition st_eqb (a b : wstate) : bool := Zl_eqb (st_list a) (st_list b).
+
+(* GetCongestionWindow, the pacer bandwidth before / after the floor, and the range property itself *)
+Definition tail_ok (st : wstate) (l : list Z) (o : nat) : bool :=
+  (get_cwnd st =? g l o) && (bandwidth_for_pacer (g l (o + 1)) =? g l (o + 2)) &&
+  (c12_minCongestionWindowPackets * mds st <=? get_cwnd st) && (get_cwnd st <=? maxCW st).
+
+(* one dumped event: recompute the modelled update from the dumped inputs and oracle values *)
+Definition dump_ok (agg : bool) (l : list Z) : bool :=
+  let before := st_at l 1 in
+  match g l 0 with
+  | 0 => let st' := on_sent before (g l 17) (g l 18) in
+         st_eqb st' (st_at l 19) && tail_ok st' l 35
+  | 1 => let o := mkO (g l 23) (g l 24 =? 1) (g l 25) (g l 26) (g l 27) (g l 28) (g l 29) (g l 30) in
+         let st' := cong_event before agg (g l 17) (g l 18) (g l 19)
+                      (if g l 20 =? 1 then Some (g l 21) else None) (g l 22 =? 1) o in
+         st_eqb st' (st_at l 31) && tail_ok st' l 47
+  | _ => match set_mds before (g l 17) with
+         | Ok st' => st_eqb st' (st_at l 18) && tail_ok st' l 34
+         | _ => false
+         end
+  end.
+
+(* the trace prefix: quic_consistent, and the sampler's queue under the same events *)
+Fixpoint pairs (n : nat) (l : list Z) : list (Z * Z) * list Z :=
+  match n with
+  | O => ([], l)
+  | S k => match l with
+           | a :: b :: t => let x := pairs k t in ((a, b) :: fst x, snd x)
+           | _ => ([], [])
+           end
+  end.
+
+Definition dec_ev (l : list Z) : option (qevent * list Z) :=
+  match l with
+  | 0 :: pn :: sz :: rt :: obs => Some (QSent pn sz (rt =? 1), obs)
+  | 1 :: na :: nl :: rest =>
+      let x := pairs (Z.to_nat na) rest in
+      let y := pairs (Z.to_nat nl) (snd x) in
+      Some (QCong (fst x) (fst y), snd y)
+  | 2 :: s :: obs => Some (QSetMds s, obs)
+  | _ => None
+  end.
+
+Fixpoint dec_all (tr : list (list Z)) : option (list (qevent * list Z)) :=
+  match tr with
+  | [] => Some []
+  | l :: t => match dec_ev l, dec_all t with
+              | Some e, Some r => Some (e :: r)
+              | _, _ => None
+              end
+  end.
+
+Fixpoint bk_cmp (q : pq Z) (evs : list (qevent * list Z)) : bool :=
+  match evs with
+  | [] => true
+  | (e, obs) :: t =>
+      match bk_step q e with
+      | Ok q1 => Zl_eqb obs [q_np q1; q_first q1; pq_slots q1] && bk_cmp q1 t
+      | _ => false
+      end
+  end.
+
+Definition trace_ok (m0 : Z) (tr : list (list Z)) : bool :=
+  match dec_all tr with
+  | None => false
+  | Some evs => quic_consistent m0 (map fst evs) && bk_cmp (pq_new 0 c12_connectionStateMapQueueSize) evs
+  end.
+
 (* ---------------------------------------------------------------- cases *)
 Inductive case :=
 | CRing (init : nat) (steps : list (Z * Z * list Z))
 | CPQ (size : nat) (steps : list (Z * Z * Z * list Z))
-| CWF (inst : nat) (win : Z) (steps : list (list Z * list Z)).
+| CWF (inst : nat) (win : Z) (steps : list (list Z * list Z))
+| CSim (agg : bool) (m0 : Z) (trace : list (list Z)) (dumps : list (list Z))
+| CSeed (cases : list (Z * Z * Z)).
 
 Definition check (c : case) : bool :=
   match c with
@@ -118,6 +201,8 @@ Definition check (c : case) : bool :=
   | CWF 0 win steps => wfz_run cmp_max (wf_new 0 win) steps
   | CWF 1 win steps => wfz_run cmp_min (wf_new 0 win) steps
   | CWF _ win steps => wfx_run (wf_new xev0 win) steps
+  | CSim agg m0 trace dumps => trace_ok m0 trace && forallb (dump_ok agg) dumps
+  | CSeed cs => forallb (fun c => seed_packet_size (fst (fst c)) (snd (fst c)) =? snd c) cs
   end.
 
 Definition mismatches (l : list case) : list nat := mism_from check 0 l.
